@@ -76,7 +76,7 @@ Definition expected_skeleton : list (string * list string) := [
     "call:getattr(self.update(), 'u', None)";
     "call:self.update()";
     "endif";
-    "if:u is None or 'u' not in {name for name, _ in self.named_buffers()}";
+    "if:u is None or 'u' not in self._buffers";
     "raise:AssertionError";
     "endif";
     "if:not isinstance(u, Tensor)";
@@ -253,6 +253,11 @@ Definition expected_skeleton : list (string * list string) := [
     "if:type(self) != type(other)";
     "raise:TypeError";
     "endif";
+    "if:self._parameters.get('params') is not None";
+    "call:self._parameters.copy()";
+    "set:self._parameters=self._parameters.copy()";
+    "del:self._parameters['params']";
+    "endif";
     "set:self.params=other";
     "if:not hasattr(self, 'p')";
     "call:hasattr(self, 'p')";
@@ -326,7 +331,9 @@ Definition expected_skeleton : list (string * list string) := [
     "return:self"]);
   ("StationaryVelocityFieldTransform.grid_",
    ["call:super().grid_(grid)";
-    "set:self.exp.align_corners=grid.align_corners()";
+    "call:shallow_copy(self.exp)";
+    "set:exp.align_corners=grid.align_corners()";
+    "set:self.exp=exp";
     "return:self"]);
   ("StationaryVelocityFieldTransform.inverse",
    ["call:shallow_copy(self)";
